@@ -280,7 +280,8 @@ def cases_for(rng, n, ctx, tmp):
                 y = _quiet(lambda: pickle.loads(pickle.dumps(x)))
                 cases.append({'id': cid, 'ev': 'roundtrip', 'fmt': 'pickle', 'before': before, 'after': _after(y)})
             elif transport == 'string':
-                s = _quiet(lambda: pe.input.json.create_json_string(x if kind == 'multi' else [x], indent=indent))
+                bare = kind in ('obs', 'array', 'corr') and (i // len(kinds)) % 2 == 0
+                s = _quiet(lambda: pe.input.json.create_json_string(x if kind == 'multi' or bare else [x], indent=indent))
                 y = s if isinstance(s, Exception) else _quiet(lambda: pe.input.json.import_json_string(s, verbose=False))
                 cases.append({'id': cid, 'ev': 'roundtrip', 'fmt': 'json-string', 'before': before, 'after': _after(y)})
                 if not isinstance(s, Exception):
@@ -292,7 +293,8 @@ def cases_for(rng, n, ctx, tmp):
                 y = r if isinstance(r, Exception) else _quiet(lambda: pe.input.json.load_json(os.path.join(tmp, 'd%d' % i), verbose=False))
                 cases.append({'id': cid, 'ev': 'roundtrip', 'fmt': 'dump-method', 'before': before, 'after': _after(y)})
             else:
-                r = _quiet(lambda: pe.input.json.dump_to_json(x if kind == 'multi' else [x], fn, gz=gz, indent=indent, description={'made by': 'c11', 'n': i}))
+                bare = kind in ('obs', 'array', 'corr') and (i // len(kinds)) % 2 == 1           # a single structure may be handed over as it is (an array included)
+                r = _quiet(lambda: pe.input.json.dump_to_json(x if kind == 'multi' or bare else [x], fn, gz=gz, indent=indent, description={'made by': 'c11', 'n': i}))
                 y = r if isinstance(r, Exception) else _quiet(lambda: pe.input.json.load_json(fn, gz=gz, verbose=False))
                 cases.append({'id': cid, 'ev': 'roundtrip', 'fmt': 'json-file', 'before': before, 'after': _after(y)})
                 if not isinstance(r, Exception):
